@@ -84,10 +84,6 @@ pub fn pow2(e: i32) -> f64 {
     2f64.powi(e)
 }
 
-pub fn top_rows(a: &Mat, k: usize) -> Mat {
-    a.iter().take(k).cloned().collect()
-}
-
 pub fn is_symmetric(a: &Mat) -> bool {
     let n = a.len();
     if n == 0 || a[0].len() != n {
